@@ -106,9 +106,16 @@ static Val read_val(CheckpointReader &rd, const std::string &kind, const std::st
   else if (kind == "d") rd(v.d, name);
   else if (kind == "b") rd(v.b, name);
   else if (kind == "s") rd(v.s, name);
-  else if (kind == "vi") { std::vector<Index> t; rd(t, name); v.vi.assign(t.begin(), t.end()); }
-  else if (kind == "vd") rd(v.vd, name);
-  else if (kind == "vs") rd(v.vs, name);
+  else if (kind == "vi") { std::vector<Index> t; static long used_i = 0; if (++used_i % 3 == 0) t.assign(5, 77); rd(t, name); v.vi.assign(t.begin(), t.end()); }
+  else if (kind == "vd") { static long used_d = 0; if (++used_d % 3 == 0) v.vd.assign(4, 0.125); rd(v.vd, name); }
+  else if (kind == "vs") {
+    // one read in three goes into a list that is in use (an object that is loaded a second time): the list read is the list stored,
+    // not the old contents followed by it — as for the numeric lists, which are resized
+    static long used_ctr = 0;
+    if (++used_ctr % 3 == 0) { v.vs.push_back("stale-entry"); v.vs.push_back(""); }
+    rd(v.vs, name);
+  }
+  else if (kind == "vi_unused") {}
   else if (kind == "m") rd(v.m, name);
   else if (kind == "v3") rd(v.v3, name);
   else if (kind == "lv3") rd(v.lv3, name);
